@@ -7,9 +7,10 @@ props = [json.loads(l) for l in open(os.path.join(V, "properties.jsonl"))]
 checks, na = [], []
 for p in props:
     pid = p["id"]
-    c = claims["claimed"].get(pid)
-    if c is None:
-        na.append({"property_id": pid, "reason": claims["unclaimed"].get(pid, "not built yet (model and proofs for this property are still to be written)")})
+    cp = os.path.join(V, "tools", "claims", pid + ".json")
+    c = json.load(open(cp)) if os.path.exists(cp) else None
+    if c is None or c.get("not_applicable"):
+        na.append({"property_id": pid, "reason": (c or {}).get("not_applicable", "not built yet (model and proofs for this property are still to be written)")})
         continue
     checks.append({
         "property_id": pid,
